@@ -181,9 +181,10 @@ def idxEntry (par : Parent) (base : Str) : Entry :=
   { name := withUnderscore base ++ fmt03 (nextIndex (withUnderscore base) par), kind := .group }
 
 /-- the entry `create_results_group` adds -/
-def resEntry (par : Parent) (d t : Str) (same : Bool) : Entry :=
+def resEntry (par : Parent) (d t : Str) (same : Bool) (sid : Str) : Entry :=
   { name := resultsPrefix d t ++ fmt03 (nextIndex (resultsPrefix d t) par), kind := .group,
-    tool := some (normTool t), source := if same then some d else none }
+    tool := some (normTool t), source := if same then some d else none,
+    sourceId := if same then some sid else none }
 
 theorem createIndexed_ok (par : Parent) (base : Str) (hb : base ≠ []) :
     createIndexed par base = .ok (par ++ [idxEntry par base], (idxEntry par base).name) := by
@@ -201,8 +202,8 @@ theorem resultsPrefix_underscore (d t : Str) : withUnderscore (resultsPrefix d t
     rw [List.getLast?_append]; simp
   simp [this]
 
-theorem createResults_ok (par : Parent) (d t : Str) (same : Bool) :
-    createResults par d t same = .ok (par ++ [resEntry par d t same], (resEntry par d t same).name) := by
+theorem createResults_ok (par : Parent) (d t : Str) (same : Bool) (sid : Str) :
+    createResults par d t same sid = .ok (par ++ [resEntry par d t same sid], (resEntry par d t same sid).name) := by
   unfold createResults assignIndex createGroup resEntry
   have hf := fresh (resultsPrefix d t) par
   simp only [resultsPrefix_ne_nil, if_false, bind, Except.bind, pure, Except.pure, resultsPrefix_underscore]
